@@ -76,3 +76,16 @@ package jsonrpc
 //@   observe in := call Get
 //@   ensures [forwards] in.count == 1 && in.arg0 == s.daImpl && in.arg2 == ids && in.arg3 == ns
 //@   ensures [answers] blobs == in.res0 && err == in.res1
+
+// The transport itself (go-jsonrpc over HTTP) is assumed to carry every request and answer
+// unchanged. That assumption is made for the library's DEFAULT limits: the server is built with the
+// known-errors mapping and nothing else (a request-size cap, for instance, would have to be chosen
+// against the encoded size of the largest batch the client lets through - blobs grow by 4/3 in
+// base64 - and is outside what these contracts can decide).
+//@ func NewServer(logger, address, port, daImplementation) (srv)
+//@   property C16
+//@   observe mk := call NewServer
+//@   observe wse := call WithServerErrors
+//@   ensures [default-transport] mk.count == 1 && len(mk.arg0) == 1 && wse.count == 1
+//@   ensures [non-nil] srv != nil
+//@   ensures [serves-the-da] srv.daImpl == daImplementation
